@@ -468,6 +468,33 @@ def _self_attribute_writes(func_node):
     return found
 
 
+def _constructor_phase_methods(model, cls):
+    """Private methods of ``cls`` that are only ever called (as ``self.m(...)``) from ``__init__`` or from other such
+    methods anywhere in the class family: helpers a constructor was split into."""
+    family = [cls] + list(model.subclasses(cls)) + [c for c in model.classes.values() if cls in model.subclasses(c)]
+    callers = {}  # method name -> set of caller method names
+    for member in family:
+        for caller_name, method in member.methods.items():
+            for node in ast.walk(method.node):
+                if isinstance(node, ast.Attribute) and isinstance(node.value, ast.Name) and node.value.id in ("self", "cls"):
+                    callers.setdefault(node.attr, set()).add(caller_name)
+                elif isinstance(node, ast.Attribute) and isinstance(node.value, ast.Call) and isinstance(node.value.func, ast.Name) \
+                        and node.value.func.id == "super":
+                    callers.setdefault(node.attr, set()).add(caller_name)
+    phase = set()
+    changed = True
+    while changed:
+        changed = False
+        for name in cls.methods:
+            if name in phase or not name.startswith("_") or name.startswith("__"):
+                continue
+            called_from = callers.get(name, set()) - {name}
+            if called_from and all(caller == "__init__" or caller in phase for caller in called_from):
+                phase.add(name)
+                changed = True
+    return phase
+
+
 def observer_cells(model):
     """
     Instance attributes of observer classes that a method other than the constructor (or a property setter) writes.
@@ -485,8 +512,9 @@ def observer_cells(model):
     for cls in seen_classes:
         setters = {setter for _, setter in cls.properties.values() if setter is not None}
         written_late = {}
+        constructor_phase = _constructor_phase_methods(model, cls)
         for name, method in cls.methods.items():
-            if name == "__init__" or method in setters:
+            if name == "__init__" or method in setters or name in constructor_phase:
                 continue
             for attribute, node in _self_attribute_writes(method.node):
                 written_late.setdefault(attribute, []).append((method, node))
